@@ -45,7 +45,7 @@ class SpanActionCallback(ActionCallback):
         for span in self.__spans:
             try:
                 span.close()
-            except Exception:
+            except BaseException:
                 deep.logging.exception("Failed to close span %s", span)
         return False
 
@@ -94,7 +94,7 @@ class SpanActionContext(ActionContext):
                 span = span_processor.create_span(name, self.trigger_context.id, self.location_action.tracepoint.id)
                 if span:
                     spans.append(span)
-            except Exception:
+            except BaseException:
                 deep.logging.exception("Failed to create span with processor %s", span_processor)
 
         if len(spans) > 0:
